@@ -96,6 +96,10 @@ func Witnesses() []Case {
 		// same list was left out when the session was reported established
 		{Cfg: []Beh{a, func() Beh { m := f(3); m.Nec = Authn; m.ListReq = true; return m }()},
 			Script: []Item{hdr, adv(AdvItem{NS: 2, Loc: 1}, AdvItem{NS: 3, Loc: 1, Req: true})}, Fault: "-"},
+		// two configured features of one namespace: the informational one takes the cache slot
+		// of the mandatory one (theorem C01_shared_ns_shadows_mandatory; documented limit)
+		{Cfg: []Beh{{NS: 2, Loc: 1, Negotiable: true, ListReq: true}, {NS: 2, Loc: 2}},
+			Script: []Item{hdr, adv(AdvItem{NS: 2, Loc: 1, Req: true}, AdvItem{NS: 2, Loc: 2})}, Fault: "-"},
 	}
 }
 
